@@ -260,10 +260,53 @@ fn parse_only(cx: &mut Ctx, idx0: &mut u64) {
     }
 }
 
+/// valid strings whose *salt* text looks like another field of the format: it starts with "argon2" (the algorithm names),
+/// "v" or "m"/"t"/"p" followed by digits. The fields of the format are positional; a parser that classifies them by their
+/// content misreads such a salt. (The hash text cannot be chosen, the salt can: 2^-36 per random salt, trivial on purpose.)
+fn field_lookalike_salts(cx: &mut Ctx, idx: &mut u64) {
+    let prefixes = ["argon2", "argon2i", "argon2id", "argon2idx", "v19", "m8t1p1", "p1", "t2m8"];
+    for (pi, pre) in prefixes.iter().enumerate() {
+        for id in [true, false] {
+            *idx += 1;
+            if !cx.mine(*idx) {
+                continue;
+            }
+            let mut rng = cx.rng.fork(*idx);
+            // 16-byte salt = 22 base64 characters, the last one with its low four bits clear
+            const A: &[u8] = b"ABCDEFGHIJKLMNOPQRSTUVWXYZabcdefghijklmnopqrstuvwxyz0123456789+/";
+            let mut text: String = pre.to_string();
+            while text.len() < 21 {
+                text.push(A[rng.below(64)] as char);
+            }
+            text.push(*rng.pick(&['A', 'Q', 'g', 'w']));
+            let Some(salt) = b64dec(&text) else {
+                cx.violation("HARNESS|C10|lookalike_salt_not_decodable", json!({"text":text}));
+                continue;
+            };
+            if b64enc(&salt) != text {
+                cx.violation("HARNESS|C10|lookalike_salt_not_canonical", json!({"text":text}));
+                continue;
+            }
+            let pw = rng.bytes(12);
+            let (t, m) = (if id { 1u32 } else { 3 }, 8u32);
+            let hash = na::argon2_raw(id, t, m, &pw, &salt, 32).unwrap();
+            let s = encode(if id { "argon2id" } else { "argon2i" }, m, t, &salt, &hash);
+            if na::pwhash_str_verify(&s, &pw) != Some(true) {
+                cx.violation("HARNESS|C10|libsodium_rejects_harness_built_string", json!({"string":s}));
+                continue;
+            }
+            cx.key(&format!("lookalike salt {} {}", pi, id));
+            check_under_dryoc(cx, "built_salt_text_looks_like_a_field", &s, &pw, &mut rng);
+            cx.cover("lookalike_salt_prefix", pre);
+        }
+    }
+}
+
 pub fn run(cx: &mut Ctx) {
     let n = cx.tier.pick(6usize, 600, 300_000);
     let mut idx = 0u64;
     parse_only(cx, &mut idx);
+    field_lookalike_salts(cx, &mut idx);
     for i in 0..n {
         idx += 1;
         if !cx.mine(idx) {
@@ -287,7 +330,7 @@ pub fn run(cx: &mut Ctx) {
         let ops = rng.range(1, 4) as u64;
         // mostly small; one case in 16 has segments longer than one address block (128) and not a multiple of it
         let mem_kib = if rng.chance(1, 16) { *rng.pick(&[516usize, 600, 1000, 1500]) } else { *rng.pick(&[8usize, 9, 16, 31, 64, 128, 256]) };
-        let memlimit = mem_kib * 1024 + if i % 3 == 0 { rng.below(1024) } else { 0 };
+        let memlimit = mem_kib * 1024 + if rng.chance(1, 3) { rng.below(1024) } else { 0 };
         cx.cover("opslimit", &format!("{}", ops));
         cx.cover("mem_kib", &format!("{}", mem_kib));
         cx.cover("pwlen_class", if pwlen == 0 { "0" } else if pwlen == 128 { "128" } else { "1..127" });
